@@ -8,14 +8,12 @@ NOTE_COMMON = ("Trusted: Coq 8.16.1 kernel (+vm_compute), extraction (ExtrOcamlB
                "the fail-closed Python translators (cross-checked against the imported module) and the correspondence harness; "
                "z3 for evaluating closed terms. Axioms per theorem: verbatim Print Assumptions output in the evidence file.")
 
-CLAIMS = {
-    "C19": dict(
-        text="Theorems (Coq, all codes/pcs/prefix splits, unbounded length): the jump-destination set computed by the two-phase scan equals the Yellow-Paper set of JUMPDEST bytes at instruction boundaries, never inside PUSH data, independent of the fast-prefix split; decode gives opcode/next pc/zero-padded big-endian operand and STOP beyond the end; slices and byte reads equal the zero-extended flat array. insn_len and the opcode constants are regenerated from contract.py on every run (translator); the hand-written scan/decode model is tied to the real Contract class by a correspondence run (exhaustive short strings over a class-preserving alphabet, random strings to 4 KiB, every concrete/symbolic split).",
-        design_ref="5 / C19",
-        technique="Coq proof over a model regenerated (insn_len, opcodes) from source + extracted-model vs implementation correspondence",
-        note=NOTE_COMMON + " ByteVec reads are assumed flat/zero-extended here (that is C07).",
-    ),
-}
+CLAIMS = {}
+for _p in sorted((ROOT / "harness" / "props").glob("C*.claim.json")):
+    _c = json.loads(_p.read_text())
+    _c.setdefault("note", "")
+    _c["note"] = (NOTE_COMMON + " " + _c["note"]).strip()
+    CLAIMS[_p.name.split(".")[0]] = _c
 
 PENDING = {
 }
